@@ -257,6 +257,16 @@ def impl_diff(case):
     return {"bad": bad}
 
 
+def impl_any(case):
+    """one worker entry point for the three streams (the Numba JIT warm-up is paid once per worker)"""
+    k = case["stream_kind"]
+    if k == "api":
+        return impl_reduce(case)
+    if k == "kernel":
+        return impl_kernel(case)
+    return impl_diff(case)
+
+
 # ------------------------------------------------------------------ generators
 def axis_args(ndim, rng, tier):
     """every ordered subset of the axes (each also in a spelling with negative entries), None, ints"""
@@ -275,6 +285,9 @@ def axis_args(ndim, rng, tier):
 
 
 def bad_axis_args(ndim, rng):
+    if ndim == 0:
+        # NumPy's ufunc.reduce tolerates axis 0 / -1 on a 0-d array (legacy); not part of the property
+        return [1, -2, [1]]
     out = [ndim, -ndim - 1, [ndim], [0, ndim] if ndim else [0]]
     if ndim >= 1:
         out += [[0, 0], [0, -ndim]]
@@ -519,10 +532,13 @@ def replay_line(c):
 
 # ------------------------------------------------------------------ campaign
 def campaign(build, tier, seed, report, budget=1):
+    import time
     rng = random.Random(seed)
     viol = []
     cov = report["coverage"]
     tags = {}
+    t0 = time.time()
+    timing = {}
 
     def tag(k, n=1):
         tags[k] = tags.get(k, 0) + n
@@ -531,7 +547,19 @@ def campaign(build, tier, seed, report, budget=1):
     cases = api_cases(tier, rng)
     if budget > 1:
         cases += api_cases(tier, random.Random(seed + 1))
-    res = vlib.run_impl("props.c03", "impl_reduce", cases, workers=6, per_case_timeout=60.0)
+    kc = kernel_cases(tier, rng)
+    dc = diff_cases(tier, rng)
+    for c in cases:
+        c["stream_kind"] = "api"
+    for c in kc:
+        c["stream_kind"] = "kernel"
+    for c in dc:
+        c["stream_kind"] = "diff"
+    allres = vlib.run_impl("props.c03", "impl_any", cases + kc + dc, workers=6, per_case_timeout=60.0)
+    res = allres[:len(cases)]
+    kres = allres[len(cases):len(cases) + len(kc)]
+    dres = allres[len(cases) + len(kc):]
+    timing["impl_all"] = round(time.time() - t0, 1)
     lits, kern = [], []
     for c, r in zip(cases, res, strict=True):
         out = r.get("out") if isinstance(r, dict) and "out" in r else r
@@ -569,11 +597,15 @@ def campaign(build, tier, seed, report, budget=1):
         outk = out.get("k") if isinstance(out, dict) else "hang"
         tag("impl/" + (out.get("exc") if outk == "exc" else str(outk)))
     imp = "From Verif Require Import Py PyExt PyReduce Shape COO GCXS SArr NpReduce Reduce C03Judge."
-    bad = build.judge("c03_api", imp, "rcase", "judge_reduce", lits, chunk=150, timeout=600)
-    tg = build.judge("c03_tags", imp, "rcase", "fun c => 1000 + tag_reduce c", lits, chunk=400, timeout=600)
+    # one pass: verdict code in the last two digits, branch tag above
+    both = build.judge("c03_api", imp, "rcase", "fun c => 1000000 + 100 * (tag_reduce c + 1) + judge_reduce c", lits,
+                       chunk=120, timeout=600)
+    timing["coq_api"] = round(time.time() - t0, 1)
+    assert len(both) == len(lits), (len(both), len(lits))
+    bad = [(i, v % 100) for i, v in both if v % 100]
     pathn = {0: "coo", 1: "gcxs_flatten", 2: "gcxs_recompress"}
-    for _i, t in tg:
-        t -= 1000
+    for _i, v in both:
+        t = (v - 1000000) // 100 - 1
         if t < 0:
             tag("model/bad_input")
             continue
@@ -590,14 +622,12 @@ def campaign(build, tier, seed, report, budget=1):
                 8: "inadmissible reduction did not raise ValueError",
                 9: "malformed input literal (generator / constructor)",
                 10: "Spec/NpReduce.v differs from NumPy"}.get(code, "implementation differs from NumPy semantics (outside the proved domain)")
-        viol.append({"property": "C03", "op": f"reduce:{c['uf']}", "kind": kind, "clause": CLAUSE.get(code),
+        viol.append({"property": "C03", "op": "reduce", "ufunc": c["uf"], "kind": kind, "clause": CLAUSE.get(code),
                      "format": c["spec"]["format"], "code": code, "what": what, "case": c,
                      "impl": r.get("out") if isinstance(r, dict) else r,
                      "numpy": r.get("np") if isinstance(r, dict) else None, "replay_py": replay_line(c)})
 
     # ---- kernel level
-    kc = kernel_cases(tier, rng)
-    kres = vlib.run_impl("props.c03", "impl_kernel", kc, workers=6)
     klits, kinfo = [], []
     for c, r in zip(kc, kres, strict=True):
         if "out" not in r:
@@ -627,9 +657,8 @@ def campaign(build, tier, seed, report, budget=1):
     tag("kernel/captured", sum(1 for k in kinfo if k[0] == "captured"))
     tag("kernel/narrow_dtype", sum(1 for k in kinfo if k[1]["gdtype"] in NARROW))
 
+    timing["kernel"] = round(time.time() - t0, 1)
     # ---- differential only
-    dc = diff_cases(tier, rng)
-    dres = vlib.run_impl("props.c03", "impl_diff", dc, workers=6, per_case_timeout=60.0)
     dcount = {}
     for c, r in zip(dc, dres, strict=True):
         name = c["kind"] if c["kind"] != "nan" else c["fn"]
@@ -639,13 +668,16 @@ def campaign(build, tier, seed, report, budget=1):
         badl = r.get("bad") if isinstance(r, dict) and "bad" in r else [f"harness: {r}"]
         if badl:
             ax = _axis_py(c["axis"])
-            viol.append({"property": "C03", "op": f"diff:{name}", "kind": "value", "clause": gcxs_clause(c["spec"], c["axis"]),
+            viol.append({"property": "C03", "op": "reduce_differential", "function": name, "kind": "value",
+                         "clause": gcxs_clause(c["spec"], c["axis"]),
                          "format": c["spec"]["format"], "what": "; ".join(badl)[:400], "case": c, "impl": badl,
                          "replay_py": f"# differential case {name} axis={ax!r} keepdims={c['keepdims']} spec={json.dumps(c['spec'])}"})
 
     distinct = len({json.dumps([c["spec"]["shape"], c["spec"]["coords"], c["spec"]["data"], c["spec"]["fill"], c["spec"]["format"],
                                 c["spec"].get("caxes"), c["uf"], c["axis"], c["keepdims"], c.get("idx_dtype")]) for c in cases
                     if c["spec"]["coords"]})
+    timing["diff"] = round(time.time() - t0, 1)
+    cov["timing_cumulative_s"] = timing
     cov["evaluations"] = len(cases) + len(klits) + len(dc)
     cov["distinct_nontrivial"] = distinct
     cov["api_cases"] = len(cases)
